@@ -8,7 +8,7 @@ HARNESS = "rx2"
 HARNESS_ARGS = ["c08"]
 ALLOWED_AXIOMS = []
 RUN_IMPORT = "Reactive.OwnerRun"
-READY = False
+READY = True
 
 RULE = ("cases drawn from one PRNG (VERIF_SEED): a random scope program (root body of statements: new signal, new stored "
         "value, on_cleanup, provide_context(ty, v), use_context(ty), child owner {body}, effect {body}, memo {body}; nesting "
@@ -32,6 +32,9 @@ TRUSTED = [
     "memo dirtiness as one flag",
 ]
 ASSUMPTIONS = [
+    "the model's two ghost flags stay false on every generated case (checked: the model would print -99 / -98 and "
+    "mismatch): err = a fuel bound was hit (proved impossible for the release cascade; for the scheduler of RunAll it "
+    "is a hypothesis of the theorems), unowned = a value was allocated with no live current owner (hypothesis of no_leak)",
     "single-threaded, atomic polls; cleanup closures do not themselves create reactive nodes or touch owners",
     "reference-count overflow / slotmap version wrap-around (2^31 reuses of one slot) do not occur",
     "a cleanup releases the child scopes it reaches: a child owner whose handle the program keeps and re-uses after its "
